@@ -47,6 +47,9 @@ TConcAddRows == /\ IsEvent("ConcAddRows")
                    /\ resp' = [kind |-> "addrow", id |-> base + n - 1]
                 /\ UNCHANGED <<files, ix, qobj, hid, dictOK>>
 TFlush == IsEvent("Flush") /\ Flush(Ev.p) /\ resp'.ok = Ev.ok /\ HashOK(Ev.p) /\ UNCHANGED dictOK
+\* another writer's Flush to the same path while this path's writer is in the middle of its own Flush: the path
+\* exists by then (exclusive creation), so the other Flush must fail and change nothing
+TFlushOverlap == IsEvent("FlushOverlap") /\ w[Ev.p].kind # "none" /\ ~w[Ev.p].done /\ Ev.ok = FALSE /\ UNCHANGED <<vars, hid, dictOK>>
 TOpen == IsEvent("Open") /\ Open(Ev.p, Ev.mode) /\ resp'.ok = Ev.ok /\ HashOK(Ev.p) /\ UNCHANGED dictOK
 TClose == IsEvent("Close") /\ Close(Ev.p) /\ HashOK(Ev.p) /\ UNCHANGED dictOK
 TSchema == /\ IsEvent("Schema") /\ GetSchema(Ev.p) /\ SchemaSeqOf(resp'.schema) = Ev.cols
@@ -64,7 +67,7 @@ TExecQ == /\ IsEvent("ExecQ") /\ Exec(Ev.p, Ev.qid) /\ resp'.res = Ev.res /\ Ev.
           /\ ResMatches(w[Ev.p].rows, qobj[Ev.qid].e, qobj[Ev.qid].gb, Ev.res)
           /\ HashOK(Ev.p) /\ UNCHANGED dictOK
 
-TNext == TReset \/ TDict \/ TPlant \/ TNewWriter \/ TDropWriter \/ TAddRows \/ TConcAddRows \/ TFlush \/ TOpen \/ TClose \/ TSchema \/ TExec \/ TIndexMetrics \/ TNewQuery \/ TExecQ
+TNext == TReset \/ TDict \/ TPlant \/ TNewWriter \/ TDropWriter \/ TAddRows \/ TConcAddRows \/ TFlush \/ TFlushOverlap \/ TOpen \/ TClose \/ TSchema \/ TExec \/ TIndexMetrics \/ TNewQuery \/ TExecQ
 TSpec == TInit /\ [][TNext]_tvars
 
 \* (the properties are conjuncts of the trace actions, so a wrong answer stops the trace at that
